@@ -17,7 +17,8 @@ PY = sys.executable
 
 
 def _one(job):
-    groups, qual, mode, k, n, timeout, max_fail, repo = job
+    groups, qual, mode, k, n, timeout, max_fail, repo = job[:8]
+    only = job[8] if len(job) > 8 else ""
     env = dict(os.environ)
     env["PYTHONPATH"] = HERE + os.pathsep + repo
     env["VERIF_REPO"] = repo
@@ -27,7 +28,7 @@ def _one(job):
         env.pop("PYVC_BYTES", None)
     t0 = time.time()
     try:
-        out = subprocess.run([PY, "-m", "pyvc.worker", groups, qual, str(k), str(n), str(timeout), str(max_fail)], capture_output=True, text=True, env=env, cwd=HERE, timeout=3600)
+        out = subprocess.run([PY, "-m", "pyvc.worker", groups, qual, str(k), str(n), str(timeout), str(max_fail), only], capture_output=True, text=True, env=env, cwd=HERE, timeout=3600)
         r = json.loads(out.stdout)
     except Exception as e:
         err = ""
@@ -45,15 +46,32 @@ def _one(job):
 def run_tasks(tasks, repo, timeout_ms=10000, procs=16, max_fail=6):
     """tasks: [(groups, qual, mode, shards)] -> {qual: merged result}"""
     jobs = []
-    for groups, qual, mode, shards in tasks:
+    for task in tasks:
+        groups, qual, mode, shards = task[:4]
+        only = task[4] if len(task) > 4 else ""
         for k in range(shards):
-            jobs.append((groups, qual, mode, k, shards, timeout_ms, max_fail, repo))
+            jobs.append((groups, qual, mode, k, shards, timeout_ms, max_fail, repo, only))
     # heavy first
     jobs.sort(key=lambda j: -j[4])
     with ThreadPoolExecutor(procs) as ex:
         rs = list(ex.map(_one, jobs))
     merged = {}
+    retry = []
     for r in rs:
+        for o in r.get("obligations", []):
+            if o["status"] == "unknown" and o.get("stage1") != "sat":
+                retry.append((r["groups"], r["function"], r["mode"], 0, 1, timeout_ms * 4, 0, repo, o["id"].split("::", 1)[1]))
+    # solver timeouts are retried once, alone and with four times the budget (the
+    # sequence solvers are sensitive to load); a candidate counter-model is not retried
+    retried = {}
+    if retry and len(retry) <= 12:
+        with ThreadPoolExecutor(4) as ex:
+            for job, rr in zip(retry, ex.map(_one, retry)):
+                for o in rr.get("obligations", []):
+                    retried[o["id"]] = o
+    for r in rs:
+        if retried:
+            r["obligations"] = [retried.get(o["id"], o) if o["status"] == "unknown" else o for o in r.get("obligations", [])]
         q = r["function"]
         m = merged.get(q)
         if m is None:
